@@ -62,6 +62,9 @@ class CirqExporter(QCircuitExporter):
                             cphase_gate = cirq.CZPowGate(exponent=p / math.pi)
                             yield cphase_gate(qubits[w[0]], qubits[w[1]])
 
+                        elif issubclass(g.__class__, gates.NopGate):
+                            continue
+
                         elif hasattr(cirq, g_name):
                             yield getattr(cirq, g_name)(
                                 *list(map(lambda x: qubits[x], w))
